@@ -4,7 +4,8 @@ tera/src/parsing/{lexer,parser,compiler,instructions,ast,mod}.rs, template.rs, t
 delimiters.rs.
 
 `Generated.panicCensusAdd` is extracted from /repo's current source on every check run
-(translator/tables/panic_census.py): every `.expect(..)`, `.unwrap()`, `unreachable!` / `panic!` /
+(translator/tables/panic_census.py): every `.unwrap()` / `.expect(..)` (one kind, keyed by the
+receiver expression, not by the message), `unreachable!` / `panic!` /
 `assert!` …, index / slice expression, call of a panicking std method (`windows`, `split_at`, …)
 and `unsafe` block outside tests, as (file, enclosing fn, kind, normalised text, count).
 
@@ -17,10 +18,12 @@ entry, written after reading the Rust at the site and the model:
   tried on the real engine);
 * `notOnPath why` — not reachable from `add_raw_template(s)` / `render*` on template input.
 
-`census_add_accounted` ties the two: every census entry has account rows of the same
-(file, fn, kind, text) with at least its count.  A panic site ADDED to the Rust (a new `.unwrap()`
+`census_add_accounted` ties the two (`coversF`, Model/PanicAccount.lean): for every key
+(file, kind, text) the census counts, over the whole file, at most as many occurrences as the account
+has rows for (the fn field of a row is informative only).  A panic site ADDED to the Rust (a new `.unwrap()`
 in `parse_expr_bp`, one more `unreachable!()` in `compile_expr`, a new index expression …) makes
-the theorem false and the build fail; removing sites or moving code does not.
+the theorem false and the build fail; removing sites, moving code, unwrap ↔ expect
+or rewording an `expect` message does not.
 
 What this does NOT cover is in the `trusted` line of props.d/C06.json: arithmetic overflow,
 `as` casts, `RefCell` / locks, allocation, stack depth (F1, F14), std methods whose name also exists
@@ -73,10 +76,12 @@ def accountAdd : List Row := [
   -- parser.rs, compiler.rs, template.rs, tera.rs formats an `Expression` or a `Node` (all format
   -- `Token`s, `&str`s or `Error`s); `Expression` is named only in ast.rs, parser.rs, compiler.rs,
   -- verif_hooks.rs and snapshot_tests/parser.rs; `Tera`'s own `Debug` prints counts only.
-  (("parsing/ast.rs", "fmt", "expect", "\"failed to write map to vec\"", 1),
+  -- ast.rs:232 `.expect("failed to write map to vec")`
+  (("parsing/ast.rs", "fmt", "unwrap", "format_map(s,&mutbuf)", 1),
    .notOnPath "`Display for Expression` (s-expression printer): used by the crate's parser snapshot \
      tests and the verif hooks only; also `format_map` into a `Vec<u8>` cannot fail"),
-  (("parsing/ast.rs", "fmt", "expect", "\"valid utf-8 in display\"", 1),
+  -- ast.rs:236 `.expect("valid utf-8 in display")`
+  (("parsing/ast.rs", "fmt", "unwrap", "std::str::from_utf8(&buf)", 1),
    .notOnPath "`Display for Expression`: snapshot tests and verif hooks only"),
   (("parsing/ast.rs", "fmt", "index", "self.kwargs[*k]", 6),
    .notOnPath "`Display for Filter / Test / FunctionCall` (two each): snapshot tests and verif hooks \
@@ -179,8 +184,8 @@ def accountAdd : List Row := [
   (("parsing/parser.rs", "parse_expr_bp", "macro", "unreachable!()", 1),
    .guarded "inner `match token` of the arm `Token::Minus | Token::Ident(\"not\")` of the outer \
      `match token` two lines above: both patterns are listed again"),
-  -- parser.rs:278
-  (("parsing/parser.rs", "parse_subscript", "expect", "\"to have an expr\"", 1),
+  -- parser.rs:278 `start.expect("to have an expr")`
+  (("parsing/parser.rs", "parse_subscript", "unwrap", "start", 1),
    .modelled "Model/ExprParser.lean: \"parser.rs:277 expect(to have an expr)\"" T_PARSER),
   -- parser.rs:1700
   (("parsing/parser.rs", "parse_until_inner", "macro", "unreachable!(\"Unexpected token when parsing: {:?}\", t)", 1),
@@ -254,11 +259,12 @@ def accountAdd : List Row := [
    .guarded "`resolved` is what `resolve_template_name` (the function just above, tera.rs:947-960) returned \
      on the same `&self`, and that function only returns keys it got from `self.templates.get_key_value` \
      (Model/Finalize.lean `walkUp` keeps the case as `.error .panic`, excluded by Tera.Reg.finalize_value)"),
-  -- tera.rs:1276 (`render_component` / `render_component_to`, render time).  No model has the public
+  -- tera.rs:1276 `.expect("Component source template must exist")` (`render_component` /
+  -- `render_component_to`, render time).  No model has the public
   -- `render_component` entry point.  Tried on the real engine: 4000 random histories of 6 batches
   -- (components defined, redefined, shadowed by fallback prefixes, dropped by replacing their
   -- template; failing batches in between), `render_component` of every name after every batch: no panic.
-  (("tera.rs", "render_component_to", "expect", "\"Component source template must exist\"", 1),
+  (("tera.rs", "render_component_to", "unwrap", "self.templates.get(&chunk.name)", 1),
    .guarded "NON-LOCAL: `self.components` is only assigned at the end of a successful `finalize_templates` \
      (tera.rs:723), from `self.templates[*tpl_name]` of that moment (tera.rs:635), and `chunk.name` is the \
      name `Template::new` compiled that template under = its key; afterwards `self.templates` only changes \
